@@ -145,7 +145,7 @@ def shapes(n):
 
 
 TAGS = ["A", "B1", "X.Y", "A_B"]
-DATA = ["1", "a b", "x&amp;y", "]]", "a>b", "l1\nl2"]
+DATA = ["1", "a b", "x&amp;y", "]]", "a>b", "l1\nl2", "AT&T", "&#38;x&#x26;"]
 
 
 def label(shape, tagsel, datasel, emptyagg, counter=None):
@@ -172,9 +172,11 @@ def random_tree(rng, maxnodes=60, maxdepth=8, tags=None, datagen=None):
         r = rng.random()
         if r < 0.5:
             return rng.choice(DATA)
-        alpha = "abcXYZ019 &;>\"'éü€汉-_.:/%]["
+        alpha = "abcXYZ019 &;>\"'éü€汉-_.:/%][#"
         s = "".join(rng.choice(alpha) for _ in range(rng.randint(1, 12))).strip()
-        return s.replace("&", "&amp;") or "x"
+        if rng.random() < 0.7:
+            s = s.replace("&", "&amp;")  # otherwise: bare ampersands stay as they are (legal SGML data, must come through untouched)
+        return s or "x"
 
     def node(depth):
         budget[0] -= 1
